@@ -646,7 +646,14 @@ func TestVerifC04(t *testing.T) {
 				// one page further in the same bucket; the victim resumes
 				kind := verifrt.Pick(rnd, []string{"raw", "add"})
 				// (pages hold four such records: three fillers make the next one cross)
-				p.Procs = [][]c04op{{{Kind: kind, Name: 0, N: 1}}, {{Kind: "add", Name: 2, N: 1}},
+				// (the victim goes through the Counter protocol, which retries a failed
+				// lookup, or straight to the record allocator on a mapping it keeps, where
+				// an error returned to a healthy process shows as such)
+				victim := "add"
+				if ((i/14)/60)%2 == 1 {
+					victim = "raw"
+				}
+				p.Procs = [][]c04op{{{Kind: kind, Name: 0, N: 1}}, {{Kind: victim, Name: 2, N: 1}},
 					{{Kind: "raw", Name: 4, N: 1}, {Kind: "raw", Name: 5, N: 1}, {Kind: "raw", Name: 6, N: 1}, {Kind: "raw", Name: 1, N: 1}}}
 				p.KillAt = make([]int, 3)
 				st = c03strategy{Kind: "park", Phases: []verifrt.Phase{{Thread: 0, Until: -1}, {Thread: 1, Until: 1 + (i/14)%60}, {Thread: 2, Until: -1}, {Thread: 1, Until: -1}}}
